@@ -1,6 +1,8 @@
 #!/bin/bash
 # confirm a seeded change in the sub-agent's scratch worktree: tests pass with it, demo fails with it, demo passes without it
 id=$1; wt=${2:-/tmp/seed/$id}; out=/verif/seeded/$id
+base=$(python3 -c "import json;print(json.load(open('/verif/seeded/$id/meta.json')).get('base_commit','HEAD'))" 2>/dev/null || echo HEAD)
+[ -d $wt ] || git -C /repo worktree add -q --detach $wt $base || exit 2
 cd $wt || exit 2
 export CARGO_NET_OFFLINE=true
 git diff --quiet -- src && git apply $out/patch.diff
